@@ -68,7 +68,8 @@ TFailed(e) ==
 (***************************************************************************)
 \* allowed numbers of zeroed bins at the low (a > 0) / high (a < 0) end
 AllowedCount(x, N) ==       \* x > 0
-  IF NearWhole(x) THEN {ClipN(Nearest(x), N), ClipN(Add(Nearest(x), One), N)}
+  IF RLt(x, RPow2(-900)) THEN {0, 1}       \* df * dt underflows to zero or not: float decision boundary
+  ELSE IF NearWhole(x) THEN {ClipN(Nearest(x), N), ClipN(Add(Nearest(x), One), N)}
   ELSE {CeilClip(x, N)}
 
 FFailedE(e, o, a) ==
@@ -78,12 +79,14 @@ FFailedE(e, o, a) ==
       leads == IF pos THEN AllowedCount(a, N) ELSE {0}
       trails == IF neg THEN AllowedCount(RNeg(a), N) ELSE {0}
       all == leads = {N} \/ trails = {N}
+      \* a subnormal shift turns the phase by < 1e-270 cycle: evaluated as 0 (keeps CosSin off 1000-bit rationals)
+      aph == IF RLt(RAbs(a), RPow2(-900)) THEN RZero ELSE a
   IN IF e.kind = "impulse"
      THEN (IF o.lead = N THEN (IF N \in leads \/ N \in trails THEN {} ELSE {"zero-bins"})
            ELSE (IF o.lead \in leads /\ o.trail \in trails THEN {} ELSE {"zero-bins"})
                 \cup (IF o.inner = 0 THEN {} ELSE {"zeroed-inside"})
                 \cup UNION {IF CClose(C(p.y.re, p.y.im),
-                                      CExp(RMul(RSub(a, RI(p.k)), RQ(o.n0, N))), Tol5)
+                                      CExp(RMul(RSub(aph, RI(p.k)), RQ(o.n0, N))), Tol5)
                             THEN {} ELSE {"moved-content"} : p \in {o.probes[i] : i \in 1..Len(o.probes)}})
      ELSE \* tone at bin b, whole-bin shift w
        LET w == Nearest(a)
